@@ -56,6 +56,9 @@ func genCurveData(r *kernel.Rand) map[int]float64 {
 			if kind == 3 && r.Bool(0.3) {
 				v += 0.5 // fractional part above a whole RPM
 			}
+			if kind == 5 && k > start && r.Bool(0.15) {
+				v = 0 // a tachometer drop-out: one sample reads 0 although the fan was turning
+			}
 			m[k] = v
 		}
 		if kind == 4 {
